@@ -4,6 +4,7 @@
 #include "common.hpp"
 #include <glm/gtc/constants.hpp>
 #include <glm/ext/scalar_common.hpp>
+#include <glm/ext/vector_common.hpp>
 #include <glm/ext/scalar_constants.hpp>
 using namespace vh;
 static bool g_thorough = false;
@@ -113,6 +114,34 @@ template<class T> void quaternary(uint64_t xb, uint64_t yb, uint64_t zb, uint64_
     { T r = glm::fmax(x, y, z, w); EV("fmax", T).arg(x).arg(y).arg(z).arg(w).res(r).emit(); }
 }
 
+// The vector overloads have their own bodies (compute_step_vector, compute_clamp_vector, functor1 ...): the same per-value definitions
+// apply to every component.  Each component of a vector call is logged as one event of the scalar operation, judged by the same rule.
+template<class T> void vector_pass(std::vector<uint64_t> const& U, std::vector<uint64_t> const& N) {
+    typedef glm::vec<4, T, glm::defaultp> V4; typedef glm::vec<3, T, glm::mediump> V3; typedef glm::vec<2, T, glm::lowp> V2;
+    auto mk4 = [](std::vector<uint64_t> const& S, size_t k) { V4 v; for (int i = 0; i < 4; ++i) v[i] = from_bits<T>(S[(k + size_t(i)) % S.size()]); return v; };
+#define VU(NAME) { auto r = glm::NAME(x); for (int i = 0; i < 4; ++i) EV(#NAME, T).arg(x[i]).res(r[i]).emit(); auto r3 = glm::NAME(x3); for (int i = 0; i < 3; ++i) EV(#NAME, T).arg(x3[i]).res(r3[i]).emit(); }
+    for (size_t k = 0; k < U.size(); k += (g_thorough ? 16 : 96)) { V4 x = mk4(U, k); V3 x3(x.y, x.z, x.w);
+        VU(floor) VU(ceil) VU(trunc) VU(round) VU(roundEven) VU(fract) VU(abs) VU(sign) VU(isnan) VU(isinf) }
+#undef VU
+#define VB(NAME) { auto r = glm::NAME(x, y); for (int i = 0; i < 4; ++i) EV(#NAME, T).arg(x[i]).arg(y[i]).res(r[i]).emit(); }
+#define VBS(NAME) { T sc = y[1]; auto r = glm::NAME(x, sc); for (int i = 0; i < 4; ++i) EV(#NAME, T).arg(x[i]).arg(sc).res(r[i]).emit(); }
+#define VT(NAME) { auto r = glm::NAME(x, y, z); for (int i = 0; i < 4; ++i) EV(#NAME, T).arg(x[i]).arg(y[i]).arg(z[i]).res(r[i]).emit(); }
+    size_t n = N.size();
+    for (size_t i = 0; i < n; ++i) for (size_t j = i % 3; j < n; j += (g_thorough ? 1 : 3)) { V4 x = mk4(N, i), y = mk4(N, j);
+        VB(min) VB(max) VB(fmin) VB(fmax) VB(step) VB(mod) VBS(min) VBS(max) VBS(fmin) VBS(fmax) VBS(mod)
+        { T e = x[2]; auto r = glm::step(e, y); for (int c = 0; c < 4; ++c) EV("step", T).arg(e).arg(y[c]).res(r[c]).emit(); }
+        { glm::vec<4, bool, glm::defaultp> m((i & 1) != 0, (j & 1) != 0, (i & 2) != 0, (j & 2) != 0); auto r = glm::mix(x, y, m); for (int c = 0; c < 4; ++c) { bool mc = m[c]; EV("mixb", T).arg(x[c]).arg(y[c]).arg(mc).res(r[c]).emit(); } }
+        if ((i + j) % (g_thorough ? 2 : 5) == 0) { V4 z = mk4(N, (i * 5 + j * 3 + 1) % n);
+            VT(clamp) VT(fclamp) VT(mix) VT(smoothstep) VT(fma)
+            { T lo = y[0], hi = z[0]; auto r = glm::clamp(x, lo, hi); for (int c = 0; c < 4; ++c) EV("clamp", T).arg(x[c]).arg(lo).arg(hi).res(r[c]).emit(); }
+            { T a = z[3]; auto r = glm::mix(x, y, a); for (int c = 0; c < 4; ++c) EV("mix", T).arg(x[c]).arg(y[c]).arg(a).res(r[c]).emit(); }
+            { T e0 = x[1], e1 = y[2]; auto r = glm::smoothstep(e0, e1, z); for (int c = 0; c < 4; ++c) EV("smoothstep", T).arg(e0).arg(e1).arg(z[c]).res(r[c]).emit(); }
+            { V2 a2(x.x, x.y), b2(y.x, y.y), c2(z.x, z.y); auto r = glm::clamp(a2, b2, c2); for (int c = 0; c < 2; ++c) EV("clamp", T).arg(a2[c]).arg(b2[c]).arg(c2[c]).res(r[c]).emit(); } } }
+#undef VB
+#undef VBS
+#undef VT
+}
+
 template<class T> void int_common(Rng& rng) {
     constexpr int W = int(sizeof(T) * 8);
     std::vector<uint64_t> v;
@@ -155,6 +184,7 @@ template<class T> void drive(Rng& rng) {
     { const uint64_t nanb = sizeof(T) == 4 ? 0x7FC00000ull : 0x7FF8000000000000ull; const uint64_t vals[4] = { to_bits(T(1)), to_bits(T(-2)), to_bits(T(0.5)), to_bits(T(3)) };
       for (int mask = 0; mask < 16; ++mask) for (int rot = 0; rot < 4; ++rot) { uint64_t a[4]; for (int i = 0; i < 4; ++i) a[i] = (mask >> i) & 1 ? (nanb | (i == 1 ? (uint64_t(1) << (sizeof(T) * 8 - 1)) : 0)) : vals[(i + rot) % 4];
           quaternary<T>(a[0], a[1], a[2], a[3]); ternary<T>(a[0], a[1], a[2]); binary<T>(a[0], a[1]); } }
+    vector_pass<T>(U, N);
     constants<T>();
 }
 
